@@ -15,6 +15,7 @@ FSETS = [FEATURES, FEATURES, FEATURES + ('fuse',), FEATURES + ('accum',)]
 
 
 CORPUS_PICK = {'corpus-carry': ['vvector', 'svector', 'vhoist-kw', 'vstack'],
+               'corpus-accum': ['vvector-trim', 'svector', 'vraw'],
                'corpus-basic': ['vvector-trim', 'shoist', 'shoist-kw', 'sraw', 'vraw', 'vftrptr', 'vdirectidx', 'sstack']}
 
 
